@@ -621,6 +621,7 @@ class Node:
         """
         for child in self.children_iter():
             child.parent = None
+            self.decrement_affinity(child.affinity_counters)
         self.children = list()
         self.children_by_name = dict()
 
